@@ -1323,8 +1323,9 @@ def spelling_obligations(rep, tier, unit='wiring:spellings'):
         rep.add(unit, f'{name}: same syntax tree', 'ground', tree(a) == tree(b) and not tree(a).startswith(('ParseError', 'PartialParseError')),
                 detail={'a': tree(a)[:160], 'b': tree(b)[:160]})
     # a bare expression is `start = expr`
-    from sourcer import grammar as G
-    pa, pb = G._parse_grammar('"a" | "b"+'), G._parse_grammar('start = "a" | "b"+')
+    from pyvc import locate
+    _pg = locate.parse_grammar()
+    pa, pb = _pg('"a" | "b"+'), _pg('start = "a" | "b"+')
     rep.add(unit, 'a bare expression is the rule start = <expression>', 'ground', repr(pa.body) == repr(pb.body), detail={'a': repr(pa.body)[:200], 'b': repr(pb.body)[:200]})
     # grouping: postfix tightest, then // /?, then << >>, then <| |> where, then |; binary operators associate to the left
     def shape(e):
